@@ -56,6 +56,11 @@ def run(ctx):
                 # "every id vector without zeros": negative ids are legal for signed dtypes
                 pool = [(-x if rng.random() < 0.5 else x) for x in pool]
                 ctx.count("negative-ids")
+            if dt in (np.int64, np.uint32) and rng.random() < 0.2:
+                # ids beyond 2**24 (2**53 for int64): survive only if no float32 / float64 buffer is in the way
+                big = 2 ** 54 if dt == np.int64 else 2 ** 31
+                pool = [x + big * (1 if x > 0 else -1) + 2 * k + 1 for k, x in enumerate(pool)]
+                ctx.count("large-ids")
             ids_np = np.array(pool, dtype=dt)
             if mode == "idxs":
                 out = flw.basins(idxs=np.array(outlets, dtype=np.int64), ids=ids_np)
